@@ -149,10 +149,36 @@ def random_instance(rnd):
     return {"P": P, "m": "random", "Fn": Fn, "Fd": 16, "pat": "random", "K": K, "N": N, "H": H, "A": A, "w": w, "reads": reads}
 
 
+def replay(ck, path):
+    """./check C02 --replay work/C02/violation-N.json : re-run the sampler on exactly that instance (both kernels,
+    starting from the recorded vector) in py-mode and let TraceCallSampler decide."""
+    with open(path) as fh:
+        rec = json.load(fh)
+    d = rec["detail"]
+    inst = d.get("inst") or {k: d["case"][k] for k in ("P", "Fn", "Fd", "H", "A", "w", "reads")}
+    inst = dict(inst)
+    inst.setdefault("K", len(inst["H"]))
+    inst.setdefault("N", len(inst["H"][0]))
+    a0 = sorted(d.get("a") or d.get("case", {}).get("a") or [0] * inst["P"])
+    jobs = [{"inst": inst, "a0": a0, "kind": kind, "n_steps": 4, "seed": ck.seed} for kind in ("gibbs", "mh")]
+    rr = pool.map_tasks("impl.c02", [{"op": "sampler_trace", "jobs": jobs}], mode="py")[0]
+    if not rr["ok"]:
+        print("replay: implementation raised: %s" % rr["error"])
+        sys.exit(1)
+    n, rej = validate_traces(ck, rr["result"], "replay", expect_reject=True)
+    print("replay instance: %s start=%s" % (json.dumps(inst), a0))
+    for r in rej:
+        print("REJECT kind=%s clause=%s event=%s" % (r["case"]["kind"], r["clause"], json.dumps(r["event"])[:600]))
+    print("replay verdict: %s (%d events)" % ("VIOLATION" if rej else "accepted by TraceCallSampler", n))
+    sys.exit(1 if rej else 0)
+
+
 def main():
     ck = Check("C02")
     tier = ck.tier
     rnd = random.Random(ck.seed)
+    if os.environ.get("VERIF_REPLAY"):
+        replay(ck, os.environ["VERIF_REPLAY"])
     ck.rule = (
         "TLC visits every ordered allele vector (and every scan prefix) of each instance of the grid (haplotype menu x "
         "read bag x ploidy x F x frequency pattern) and checks full-conditional / detailed-balance / stationarity in exact "
